@@ -324,9 +324,16 @@ def setup_first(E):
     log = OpaqueLog(E, returns={'__anext__': lambda *a: aio.Awaitable('provider'),
                                 'connect': lambda *a: aio.Awaitable('transport.connect') if suspends_connect else aio.Awaitable('ready')})
 
+    lease_obj = E.call(E.lookup('rsocket/lease.py::DefinedLease'), [5])
+
     def on_suspend(E_, what):
         kind, obj = what
         check('suspended in %s' % kind)
+        # rely: while connect() is suspended the client's own lease publisher may publish a lease (LeaseSubscriber.on_next ->
+        # send_lease); like every other frame it has to end up behind SETUP
+        if E_.path.choice(2, 'lease-published-while-suspended-in-%s' % kind) == 1:
+            E_.call(E_.getattr(sock, 'send_lease'), [lease_obj])
+            state['leases'] = state.get('leases', 0) + 1
         if kind == 'provider':
             # while connect() is suspended the application may issue requests: they are queued
             E_.call(E_.getattr(sock.attrs['_send_queue'], 'put_nowait'), [SOpaque('frame', 'early-request')])
@@ -344,10 +351,51 @@ def setup_first(E):
     E.prove('connect:requests_issued_while_connecting_are_kept_behind_SETUP_in_order',
             [x.ident for x in q if isinstance(x, SOpaque)] == (['early-request', 'request-during-connect'] if suspends_connect else ['early-request'])
             and len(q) >= 1 and not isinstance(q[0], SOpaque))
+    E.prove('connect:leases_published_while_connecting_are_queued_behind_SETUP',
+            len([x for x in q if is_frame(x, 'LeaseFrame')]) == state.get('leases', 0) and is_frame(q[0], 'SetupFrame'))
     E.prove('connect:at_every_suspension_transport_resolved_implies_SETUP_queued[%s]' % ('transport.connect() suspends' if suspends_connect else 'transport.connect() does not suspend'),
             state['violated'] is None)
     E.prove('connect:transport_future_resolved_with_the_provided_transport', nt.attrs['state'] == 'result' and nt.attrs['value'] is transport)
     E.prove('connect:transport_connected_once', len(log.of(transport, 'connect')) == 1)
+
+
+@harness('c16.head_insertion_is_reserved_for_SETUP', ['C16', 'C08', 'C05'], functions=[BASE + '.connect', BASE + '.send_priority_frame'],
+         assumptions=['syntactic call-site obligation: every call of send_priority_frame in the library sources is inspected; the frame '
+                      'passed at the permitted site is proved to be the SETUP frame by c16.setup_precedes_everything'])
+def head_insertion_sites(E):
+    """send_priority_frame puts a frame AHEAD of everything queued.  "SETUP precedes every other frame" therefore needs the
+    frame condition that nothing but connect()'s SETUP is ever queued that way."""
+    import ast as _ast
+    import os as _os
+    sites = []
+    root = _os.path.join(E.repo_root, 'rsocket')
+    for dp, dn, fn in _os.walk(root):
+        for f in fn:
+            if not f.endswith('.py'):
+                continue
+            path = _os.path.join(dp, f)
+            tree = _ast.parse(open(path).read())
+            stack = []
+
+            def walk(node):
+                named = isinstance(node, (_ast.FunctionDef, _ast.AsyncFunctionDef, _ast.ClassDef))
+                if named:
+                    stack.append(node.name)
+                if isinstance(node, _ast.Call) and isinstance(node.func, _ast.Attribute) and node.func.attr == 'send_priority_frame':
+                    sites.append((_os.path.relpath(path, E.repo_root), '.'.join(stack), _ast.unparse(node)[:80]))
+                if isinstance(node, _ast.Attribute) and node.attr == 'send_priority_frame' and not isinstance(getattr(node, 'ctx', None), _ast.Store):
+                    pass
+                for ch in _ast.iter_child_nodes(node):
+                    walk(ch)
+                if named:
+                    stack.pop()
+            walk(tree)
+    E.cover('scanned')
+    allowed = [s for s in sites if s[0] == 'rsocket/rsocket_base.py' and s[1] == 'RSocketBase.connect']
+    other = [s for s in sites if s not in allowed]
+    E.prove('head_insertion:used_by_connect_for_SETUP', len(allowed) == 1)
+    E.prove('head_insertion:no_other_frame_is_ever_queued_ahead_of_the_queue%s' % (('[%s in %s]' % (other[0][2], other[0][1])) if other else ''),
+            not other)
 
 
 @harness('c16.handle_setup', ['C16', 'C12'], functions=[BASE + '.handle_setup', BASE + '.handle_resume'],
